@@ -109,6 +109,9 @@ func runCheck(spec *CheckSpec, tier string) int {
 	var sumScns []*Scenario
 	if spec.Summaries {
 		sumScns = eng.EstablishSummaries(c.Workers)
+		if len(eng.lemmaFailed) > 0 {
+			return fail("executor lemma not established: %v", eng.lemmaFailed)
+		}
 	}
 	c.Scns = spec.Scenarios(c)
 	for i, s := range c.Scns {
@@ -132,10 +135,25 @@ func runCheck(spec *CheckSpec, tier string) int {
 		return fail("exploration: %v", err)
 	}
 	c.Extra["explore_s"] = time.Since(tEx).Seconds()
+	if os.Getenv("VERIF_SLOW") != "" {
+		ss := append([]*Scenario(nil), c.Scns...)
+		sort.Slice(ss, func(i, j int) bool { return ss[i].WallNs > ss[j].WallNs })
+		for i := 0; i < len(ss) && i < 12; i++ {
+			fmt.Printf("slow: %.2fs (solver %.2fs) paths=%d %s %v\n", float64(ss[i].WallNs)/1e9, float64(ss[i].SolverNs)/1e9, ss[i].Paths, ss[i].Label, ss[i].Params)
+		}
+	}
 	c.Extra["summaries"] = eng.sumNotes
 	_ = sumScns
 	if ex.timedOut {
-		return fail("exploration exceeded its budget of %d s: reduce the bound", budget)
+		var unfinished []string
+		for _, s := range c.Scns {
+			if s.Paths == 0 || s.WallNs > 20e9 {
+				if len(unfinished) < 8 {
+					unfinished = append(unfinished, fmt.Sprintf("%s %v (paths so far %d, %.0fs)", s.Label, s.Params, s.Paths, float64(s.WallNs)/1e9))
+				}
+			}
+		}
+		return fail("exploration exceeded its budget of %d s: reduce the bound; heavy or unstarted scenarios: %v", budget, unfinished)
 	}
 	// inconclusive paths, vacuity
 	for _, s := range c.Scns {
@@ -234,6 +252,11 @@ func runCheck(spec *CheckSpec, tier string) int {
 			ok = r.Outcome == "panic" || r.Outcome == "crash" || r.Outcome == "hang"
 		default:
 			ok = (r.Outcome == vr.v.Kind && r.Tag == vr.v.Tag)
+			for _, ft := range r.Failed {
+				if vr.v.Kind == "assert" && ft == vr.v.Tag {
+					ok = true
+				}
+			}
 		}
 		if ok {
 			if _, have := confirmed[vr.g.key]; !have {
